@@ -662,3 +662,46 @@ def check(ctx) -> None:
     # (module-level tables keyed by less than their inputs), shared with C06-B4
     scope12 = {q for q in ctx.res.reachable([MERGE], ctx.graph) if q.startswith("synrbl.")}
     c06.rule_b4(ctx, scope12, "C09-M12", class_level=False)
+    # M13: the merge stage driver used on its own behaves the same whatever was constructed before: nobody edits the
+    # container that is the default of one of its parameters (shared with C06-B13)
+    c06.rule_b13(ctx, "C09-M13")
+    rule_m14(ctx)
+
+
+def rule_m14(ctx, rule_id: str = "C09-M14") -> None:
+    """Compounds without an open boundary are concatenated into the result as they are: the molecule of the result is
+    parsed from the SMILES of *every* part, with multiplicity.  Two fragments of one molecule can be the same compound
+    (two equal leaving groups); a set of their SMILES keeps one of them and the result loses heavy atoms."""
+    ctx.rule(rule_id, "Compound.concat builds the joined molecule from every part's SMILES, with multiplicity (no set of SMILES)", 1)
+    f = ctx.prog.func("synrbl.SynMCSImputer.structure.Compound.concat")
+    sites = [c for c in calls(f) if unparse(c.func).split(".")[-1] == "_to_mol" and c.args]
+    ctx.require(sites, "Compound.concat no longer parses the joined SMILES with _to_mol")
+
+    def closure(e, depth=0, seen=None):
+        seen = seen if seen is not None else set()
+        out = [e]
+        for x in ast.walk(e):
+            if isinstance(x, ast.Name) and x.id not in seen and depth < 4:
+                seen.add(x.id)
+                for _st, v, _i in assignments_to(f, x.id):
+                    out.extend(closure(v, depth + 1, seen))
+        return out
+
+    def dedups(e) -> Optional[ast.AST]:
+        for x in ast.walk(e):
+            if isinstance(x, (ast.Set, ast.SetComp, ast.DictComp)):
+                return x
+            if isinstance(x, ast.Call):
+                t = unparse(x.func).split(".")[-1]
+                if t in ("set", "frozenset", "fromkeys", "unique", "Counter", "drop_duplicates"):
+                    return x
+        return None
+
+    for c in sites:
+        bad = None
+        for e in closure(c.args[0]):
+            bad = bad or dedups(e)
+        smi = any(isinstance(x, ast.Attribute) and x.attr in ("smiles", "src_smiles") for e in closure(c.args[0]) for x in ast.walk(e))
+        ctx.instance(rule_id, "concat: %s (from the parts' SMILES: %s, de-duplicated: %s)" % (unparse(c)[:70], smi, bad is not None), f.loc(c), ok=bad is None)
+        if bad is not None:
+            ctx.finding(rule_id, "Compound.concat:parts-as-set", f.loc(c), "the SMILES of the parts are collected in a set (%s) before they are joined and parsed: two equal compounds (two identical leaving groups of one reaction) become one and the merged result loses their heavy atoms" % unparse(bad)[:60])
